@@ -444,7 +444,8 @@ def _abridge(plan, limit=400):
 def print_indices(pid, tier, verif_seed, idx, sysidx) -> int:
     prop = load_prop(pid)
     out = {}
-    for kind, lst in (("seed", idx), ("sys", sysidx)):
+    nsys = prop.systematic_count(tier) if hasattr(prop, "systematic_count") else 0
+    for kind, lst in (("seed", idx), ("sys", [i for i in sysidx if i < nsys])):
         for i in lst:
             plan = _plan_for(prop, pid, verif_seed, tier, kind, i)
             out[f"{kind}:{i}"] = prop.execute(plan).log.digest()
